@@ -21,8 +21,9 @@ UNKNOWN_PID = 7          # never handed out by the shim's fork()
 PID0 = 1000
 
 # wait statuses (POSIX encoding; decoded by the REAL os.W* macros passed through)
-STATUS = {"N": 0, "E1": 1 << 8, "E255": 255 << 8, "S9": 9, "S11c": 11 | 0x80}
-ABNORMAL = {"E1", "E255", "S9", "S11c"}
+# S40: a real-time signal that has no name in the signal.Signals enum (kill -40)
+STATUS = {"N": 0, "E1": 1 << 8, "E255": 255 << 8, "S9": 9, "S11c": 11 | 0x80, "S40": 40}
+ABNORMAL = {"E1", "E255", "S9", "S11c", "S40"}
 
 
 class _Stop(BaseException):
@@ -320,7 +321,7 @@ class C41(Check):
     level = "model_checking"
     design_ref = "DESIGN.md §2 C41"
     rule = ("DFS over every history of os.wait() answers up to the depth bound that a kernel "
-            "could give (exit of a live worker with status normal / exit 1 / signal 9 [+ exit 255, "
+            "could give (exit of a live worker with status normal / exit 1 / real-time signal 40 [+ signal 9, exit 255, "
             "signal 11 with core flag in thorough]; a pid that is not a worker: never-forked pid "
             "or stale pid of a reaped worker) x workers 1..3 and num_processes None/0/-1 "
             "(cpu_count fixed 2) x max_restarts 0..3 and None(=100) x pid policy {fresh, "
@@ -341,8 +342,8 @@ class C41(Check):
         "the order in which ids 0..n-1 are first started is free (observed through the child view)",
     ]
 
-    K3 = ("N", "E1", "S9")
-    K5 = ("N", "E1", "S9", "E255", "S11c")
+    K3 = ("N", "E1", "S40")
+    K5 = ("N", "E1", "S9", "E255", "S11c", "S40")
 
     def configs(self, tier):
         """Each config is one completely enumerated history space."""
